@@ -97,9 +97,34 @@ def cmd_check(args, vx):
                 if fb.get("success"):
                     discharged += 1
                 fn_records.append({"unit": u, "function": fb["function"], "mode": fb.get("mode:"), "ok": fb.get("success"), "smt_us": fb.get("time-micros"), "rlimit": fb.get("rlimit")})
+        # functions the templates do not know (added to a file after the contracts were written; picked up by `#rest`
+        # without contract): verification is modular, so an obligation of a function that calls one of them directly
+        # cannot be decided — tool failure, not an alarm (the bounded replay still runs on the real code)
+        new_fns = [it["name"].split("fn ")[-1].strip() for it in res.gen.items if it.get("via_rest") and it.get("kind") == "fn"]
+        def calls_new(info):
+            idx = info.get("item_index")
+            if not new_fns or idx is None:
+                return None
+            text = "\n".join(l for l, inf in zip(res.gen.lines, res.gen.info) if inf.item == idx and inf.kind == "code")
+            for n in new_fns:
+                if re.search(r"\b" + re.escape(n) + r"\b", text) and res.gen.items[idx]["name"].split("fn ")[-1].strip() != n:
+                    return n
+            return None
         for d in res.diags:
             k = vx.classify(d)
             info = vx.diag_info(res, d)
+            nf = calls_new(info) if k not in ("frontend", "rlimit") else None
+            idx0 = info.get("item_index")
+            if k not in ("frontend", "rlimit") and idx0 is not None and res.gen.items[idx0].get("via_rest"):
+                msg = f"unit {u}: `{info['item']}` was added without a contract (no precondition): its own obligation `{info['obligation'][:120]}` is undecided"
+                if msg not in tool_problems:
+                    tool_problems.append(msg)
+                continue
+            if nf:
+                msg = f"unit {u}: `{info['item']}` calls `{nf}`, a function added without a contract: its obligation `{info['obligation'][:120]}` is undecided"
+                if msg not in tool_problems:
+                    tool_problems.append(msg)
+                continue
             if k == "frontend":
                 tool_problems.append(f"verus front-end error in unit {u}: {d['message']}")
             elif k == "rlimit":
